@@ -9,13 +9,23 @@ Definition user_env (a : env) : Prop := Forall (fun p => is_user (fst p) = true)
 Lemma fresh_user_env a x : user_env a -> is_user x = false -> fresh x a.
 Proof. intros H Hx. eapply Forall_impl; [|exact H]. intros [y w]. cbn [fst]. destruct x, y; simpl in *; congruence. Qed.
 
-Lemma lookup_mid a R en x : nonuser R -> is_user x = true -> lookup (a ++ R ++ en) x = lookup (a ++ en) x.
-Proof. intros HR Hx. induction a as [|[y w] t IH]; cbn [app lookup].
-  - apply lookup_app_fresh. eapply Forall_impl; [|exact HR]. intros [y w]. cbn [fst]. destruct x, y; simpl in *; congruence.
-  - now rewrite IH. Qed.
-
 Lemma pop_to_drop (b e1 e2 : env) : length e1 = length e2 -> pop_to (length e1) (b ++ e2) = e2.
 Proof. intros H. rewrite H. apply pop_to_app. Qed.
+
+(* ---- the user-visible part of an environment ---- *)
+Lemma strip_app a b : strip (a ++ b) = strip a ++ strip b.
+Proof. apply filter_app. Qed.
+Lemma strip_user a : user_env a -> strip a = a.
+Proof. induction 1 as [|[x v] t Hx _ IH]; [reflexivity|]. cbn [strip filter fst] in *. rewrite Hx. unfold strip in IH. now rewrite IH. Qed.
+Lemma strip_nonuser R : nonuser R -> strip R = [].
+Proof. induction 1 as [|[x v] t Hx _ IH]; [reflexivity|]. cbn [strip filter fst] in *. rewrite Hx. exact IH. Qed.
+Lemma lookup_strip en x : is_user x = true -> lookup (strip en) x = lookup en x.
+Proof. intros Hx. induction en as [|[y w] t IH]; [reflexivity|]. cbn [strip filter fst lookup].
+  destruct (is_user y) eqn:Uy.
+  - cbn [lookup]. destruct (name_eqb x y); auto.
+  - assert (name_eqb x y = false) as -> by (destruct x, y; simpl in *; congruence). exact IH. Qed.
+Lemma strip_mid a R en : user_env a -> nonuser R -> strip (a ++ R ++ en) = a ++ strip en.
+Proof. intros Ha HR. rewrite !strip_app, (strip_user a Ha), (strip_nonuser R HR). reflexivity. Qed.
 
 Section C02.
   Variable err_text : err -> str.
@@ -23,23 +33,46 @@ Section C02.
   Notation ev := (ev err_text self).
   Notation ex := (ex err_text self).
 
-  (* pure operand expressions evaluate as pev says, wherever compiler-generated bindings sit *)
-  Lemma pev_sound a R en : nonuser R -> forall e v t, pev (a ++ en) e = Some (v, t) ->
-    forall tr, ev e (a ++ R ++ en) tr = (RVal [v], a ++ R ++ en, tr ++ t).
+  (* pure operand expressions evaluate as pev says on the user-visible environment *)
+  Lemma pev_sound : forall e en v t, pev (strip en) e = Some (v, t) ->
+    forall tr, ev e en tr = (RVal [v], en, tr ++ t).
   Proof.
-    intros HR. induction e; intros v0 t0 H tr; cbn [pev] in H; try discriminate.
+    induction e; intros en v0 t0 H tr; cbn [pev] in H; try discriminate.
     - injection H as <- <-. rewrite ev_EConst. now rewrite app_nil_r.
-    - destruct (is_user x) eqn:U; [|discriminate]. destruct (lookup (a ++ en) x) as [w|] eqn:L; [|discriminate].
-      injection H as <- <-. rewrite ev_EVar. rewrite (lookup_mid a R en x HR U). rewrite L. now rewrite app_nil_r.
-    - destruct (pev (a ++ en) e) as [[w t]|] eqn:P; [|discriminate]. injection H as <- <-.
-      rewrite ev_EProbe. unfold ev1. rewrite (IHe _ _ eq_refl). cbn [one]. now rewrite <- app_assoc.
-    - destruct (pev (a ++ en) e1) as [[x ta]|] eqn:P1; [|discriminate].
-      destruct (pev (a ++ en) e2) as [[y tb]|] eqn:P2; [|discriminate].
+    - destruct (is_user x) eqn:U; [|discriminate]. rewrite (lookup_strip en x U) in H.
+      destruct (lookup en x) as [w|] eqn:L; [|discriminate].
+      injection H as <- <-. rewrite ev_EVar, L. now rewrite app_nil_r.
+    - destruct (pev (strip en) e) as [[w t]|] eqn:P; [|discriminate]. injection H as <- <-.
+      rewrite ev_EProbe. unfold ev1. rewrite (IHe _ _ _ P). cbn [one]. now rewrite <- app_assoc.
+    - destruct (pev (strip en) e1) as [[x ta]|] eqn:P1; [|discriminate].
+      destruct (pev (strip en) e2) as [[y tb]|] eqn:P2; [|discriminate].
       destruct (bin_eval op x y) eqn:B; try discriminate. injection H as <- <-.
-      rewrite ev_EBin. unfold ev1. rewrite (IHe1 _ _ eq_refl). cbn [one]. rewrite (IHe2 _ _ eq_refl). cbn [one].
+      rewrite ev_EBin. unfold ev1. rewrite (IHe1 _ _ _ P1). cbn [one]. rewrite (IHe2 _ _ _ P2). cbn [one].
       rewrite B. now rewrite <- app_assoc.
   Qed.
 
+  (* an operand is sound: its expression evaluates, in ANY environment, to what its meaning says on the
+     user-visible part of that environment; single value, environment unchanged *)
+  Definition op_ok (o : operand) : Prop :=
+    forall en v tr tr', op_f o (strip en) tr = Some (v, tr') -> ev (op_e o) en tr = (RVal [v], en, tr').
+
+  Lemma pure_op_ok e : op_ok (pure_op e).
+  Proof. intros en v tr tr' H. cbn [pure_op op_f op_e] in *. destruct (pev (strip en) e) as [[w t]|] eqn:P; [|discriminate].
+    injection H as <- <-. now apply pev_sound. Qed.
+
+  Definition wf_phrase (p : phrase) : Prop :=
+    match ph_key p with Some x => is_user x = true | None => True end /\
+    match ph_val p with Some x => is_user x = true | None => True end /\
+    op_ok (ph_x p) /\ match ph_cond p with Some c => op_ok c | None => True end.
+  Definition wf_kind (k : ckind) : Prop :=
+    match k with
+    | CList e => op_ok e
+    | CMap a b => op_ok a /\ op_ok b
+    | CSelect e _ => op_ok e
+    | CExists => True
+    end.
+
+  Section Env.
   Variable en : env.     (* the environment around the comprehension *)
 
   (* the closure's result variables around the accumulated value *)
@@ -54,9 +87,17 @@ Section C02.
   Lemma frame_length k acc acc' : length (frame k acc) = length (frame k acc').
   Proof. destruct k as [| | ? [|] |]; reflexivity. Qed.
 
+  Lemma strip_env a k acc : user_env a -> strip (a ++ frame k acc ++ en) = a ++ strip en.
+  Proof. intros Ha. apply strip_mid; auto. apply frame_nonuser. Qed.
+
+  (* operands inside the loops *)
+  Lemma op_at o a k acc v tr tr' : op_ok o -> user_env a -> op_f o (a ++ strip en) tr = Some (v, tr') ->
+    ev (op_e o) (a ++ frame k acc ++ en) tr = (RVal [v], a ++ frame k acc ++ en, tr').
+  Proof. intros Ho Ha H. apply Ho. now rewrite strip_env. Qed.
+
   (* a statement implements a body function *)
   Definition body_ok (k : ckind) (s : stmt) (F : body_fn) : Prop :=
-    forall a acc tr st tr', user_env a -> F (a ++ en) acc tr = Some (st, tr') ->
+    forall a acc tr st tr', user_env a -> F (a ++ strip en) acc tr = Some (st, tr') ->
       match st with
       | Cont acc' => ex s (a ++ frame k acc ++ en) tr = (RVal tt, a ++ frame k acc' ++ en, tr')
       | Done vs => exists acc'', ex s (a ++ frame k acc ++ en) tr = (RRet vs, a ++ frame k acc'' ++ en, tr')
@@ -67,43 +108,40 @@ Section C02.
   Lemma update_frame0 a acc v : user_env a -> update (a ++ [(NRet 0, acc)] ++ en) (NRet 0) v = Some (a ++ [(NRet 0, v)] ++ en).
   Proof. intros Ha. rewrite update_app_fresh by (apply fresh_user_env; auto). reflexivity. Qed.
 
-  Lemma inner_ok k : body_ok k (innermost k) (spec_inner k).
+  Lemma inner_ok k : wf_kind k -> body_ok k (innermost k) (spec_inner k).
   Proof.
-    intros a acc tr st tr' Ha H. destruct k as [elt|ke ve|elt two|]; cbn [spec_inner innermost] in *.
+    intros Wk a acc tr st tr' Ha H. destruct k as [elt|ke ve|elt two|]; cbn [spec_inner innermost wf_kind] in *.
     - (* list *)
       destruct acc as [| | | | |l| |]; try discriminate.
-      destruct (pev (a ++ en) elt) as [[v t]|] eqn:P; [|discriminate]. injection H as <- <-.
-      pose proof (pev_sound a _ en (frame_nonuser (CList elt) (VList l)) _ _ _ P) as PS.
+      destruct (op_f elt (a ++ strip en) tr) as [[v tr1]|] eqn:P; [|discriminate]. injection H as <- <-.
+      pose proof (op_at elt a (CList elt) (VList l) v tr tr1 Wk Ha P) as PS.
       cbn [frame] in *.
       rewrite ex_SAssign. cbn [rhs_eval]. rewrite ev_EAppend. unfold ev1.
       rewrite ev_EVar, lookup_frame0 by auto. cbn [one]. rewrite PS. cbn [one assign_all].
       rewrite update_frame0 by auto. reflexivity.
     - (* map *)
+      destruct Wk as [Wa Wb].
       destruct acc as [| | | | | |l|]; try discriminate.
-      destruct (pev (a ++ en) ke) as [[kv tk]|] eqn:P1; [|discriminate].
-      destruct (pev (a ++ en) ve) as [[vv tv]|] eqn:P2; [|discriminate]. injection H as <- <-.
-      pose proof (pev_sound a _ en (frame_nonuser (CMap ke ve) (VMap l)) _ _ _ P1) as PS1.
-      pose proof (pev_sound a _ en (frame_nonuser (CMap ke ve) (VMap l)) _ _ _ P2) as PS2.
+      destruct (op_f ke (a ++ strip en) tr) as [[kv tr1]|] eqn:P1; [|discriminate].
+      destruct (op_f ve (a ++ strip en) tr1) as [[vv tr2]|] eqn:P2; [|discriminate]. injection H as <- <-.
+      pose proof (op_at ke a (CMap ke ve) (VMap l) kv tr tr1 Wa Ha P1) as PS1.
+      pose proof (op_at ve a (CMap ke ve) (VMap l) vv tr1 tr2 Wb Ha P2) as PS2.
       cbn [frame] in *.
       rewrite ex_SSetIndex, lookup_frame0 by auto. rewrite PS1, PS2. rewrite update_frame0 by auto. reflexivity.
     - (* select *)
-      destruct (pev (a ++ en) elt) as [[v t]|] eqn:P; [|discriminate]. injection H as <- <-.
-      rewrite ex_SReturn. destruct two; cbn [ev_list].
-      + exists acc. rewrite (pev_sound a _ en (frame_nonuser (CSelect elt true) acc) _ _ _ P). cbn [one]. rewrite ev_EConst. reflexivity.
-      + exists acc. rewrite (pev_sound a _ en (frame_nonuser (CSelect elt false) acc) _ _ _ P). reflexivity.
+      destruct (op_f elt (a ++ strip en) tr) as [[v tr1]|] eqn:P; [|discriminate]. injection H as <- <-.
+      rewrite ex_SReturn. exists acc. destruct two; cbn [ev_list].
+      + rewrite (op_at elt a (CSelect elt true) acc v tr tr1 Wk Ha P). cbn [one]. rewrite ev_EConst. reflexivity.
+      + rewrite (op_at elt a (CSelect elt false) acc v tr tr1 Wk Ha P). reflexivity.
     - injection H as <- <-. exists acc. rewrite ex_SReturn. cbn [ev_list]. rewrite ev_EConst. reflexivity.
   Qed.
 
   (* ---------------------------------------------------------------- one for-phrase *)
-  Definition wf_phrase (p : phrase) : Prop :=
-    match ph_key p with Some x => is_user x = true | None => True end /\
-    match ph_val p with Some x => is_user x = true | None => True end.
-
   Definition binds (p : phrase) (kv vv : val) : env := bind_kv p kv vv [].
   Lemma bind_kv_app p kv vv X : bind_kv p kv vv X = binds p kv vv ++ X.
   Proof. unfold binds, bind_kv, bind_opt. destruct (ph_val p), (ph_key p); reflexivity. Qed.
   Lemma binds_user p kv vv : wf_phrase p -> user_env (binds p kv vv).
-  Proof. intros [Hk Hv]. unfold binds, bind_kv, bind_opt. destruct (ph_val p), (ph_key p); repeat constructor; auto. Qed.
+  Proof. intros (Hk & Hv & _). unfold binds, bind_kv, bind_opt. destruct (ph_val p), (ph_key p); repeat constructor; auto. Qed.
 
   Lemma spec_items_nil p F e acc tr : spec_items p F e [] acc tr = Some (Cont acc, tr).
   Proof. reflexivity. Qed.
@@ -111,9 +149,9 @@ Section C02.
       let en' := bind_kv p kv vv e in
       let run := match ph_cond p with
                  | None => F en' acc tr
-                 | Some c => match pev en' c with
-                             | Some (VBool true, tc) => F en' acc (tr ++ tc)
-                             | Some (VBool false, tc) => Some (Cont acc, tr ++ tc)
+                 | Some c => match op_f c en' tr with
+                             | Some (VBool true, tr1) => F en' acc tr1
+                             | Some (VBool false, tr1) => Some (Cont acc, tr1)
                              | _ => None
                              end
                  end in
@@ -123,16 +161,16 @@ Section C02.
       end.
   Proof. reflexivity. Qed.
 
-  Definition guarded (p : phrase) (s : stmt) : stmt := match ph_cond p with Some c => SIf c s SSkip | None => s end.
+  Definition guarded (p : phrase) (s : stmt) : stmt := match ph_cond p with Some c => SIf (op_e c) s SSkip | None => s end.
 
   (* the guarded body, run for one item *)
-  Lemma guarded_ok k p s F : body_ok k s F ->
+  Lemma guarded_ok k p s F : wf_phrase p -> body_ok k s F ->
     forall a acc tr st tr', user_env a ->
       match ph_cond p with
-      | None => F (a ++ en) acc tr
-      | Some c => match pev (a ++ en) c with
-                  | Some (VBool true, tc) => F (a ++ en) acc (tr ++ tc)
-                  | Some (VBool false, tc) => Some (Cont acc, tr ++ tc)
+      | None => F (a ++ strip en) acc tr
+      | Some c => match op_f c (a ++ strip en) tr with
+                  | Some (VBool true, tr1) => F (a ++ strip en) acc tr1
+                  | Some (VBool false, tr1) => Some (Cont acc, tr1)
                   | _ => None
                   end
       end = Some (st, tr') ->
@@ -141,23 +179,23 @@ Section C02.
       | Done vs => exists acc'', ex (guarded p s) (a ++ frame k acc ++ en) tr = (RRet vs, a ++ frame k acc'' ++ en, tr')
       end.
   Proof.
-    intros Hs a acc tr st tr' Ha H. unfold guarded. destruct (ph_cond p) as [c|]; [|exact (Hs a acc tr st tr' Ha H)].
-    destruct (pev (a ++ en) c) as [[[| [|] | | | | | |] tc]|] eqn:PC; try discriminate.
+    intros (_ & _ & _ & Wc) Hs a acc tr st tr' Ha H. unfold guarded. destruct (ph_cond p) as [c|]; [|exact (Hs a acc tr st tr' Ha H)].
+    destruct (op_f c (a ++ strip en) tr) as [[[| [|] | | | | | |] tr1]|] eqn:PC; try discriminate.
     - (* filter true *)
-      rewrite ex_SIf. rewrite (pev_sound a _ en (frame_nonuser k acc) _ _ _ PC). cbv zeta.
-      pose proof (Hs a acc (tr ++ tc) st tr' Ha H) as B. destruct st as [acc'|vs].
+      rewrite ex_SIf. rewrite (op_at c a k acc _ tr tr1 Wc Ha PC). cbv zeta.
+      pose proof (Hs a acc tr1 st tr' Ha H) as B. destruct st as [acc'|vs].
       + rewrite B. f_equal. f_equal. apply pop_to_eqlen. rewrite !app_length. now rewrite (frame_length k acc acc').
       + destruct B as [acc'' B]. exists acc''. rewrite B. f_equal. f_equal. apply pop_to_eqlen.
         rewrite !app_length. now rewrite (frame_length k acc acc'').
     - (* filter false *)
-      injection H as <- <-. rewrite ex_SIf. rewrite (pev_sound a _ en (frame_nonuser k acc) _ _ _ PC). cbv zeta.
+      injection H as <- <-. rewrite ex_SIf. rewrite (op_at c a k acc _ tr tr1 Wc Ha PC). cbv zeta.
       rewrite ex_SSkip. now rewrite pop_to_same.
   Qed.
 
   Lemma items_ok k p s F : wf_phrase p -> body_ok k s F ->
     forall a, user_env a -> forall l acc tr st tr' n,
       n = length (a ++ frame k acc ++ en) ->
-      spec_items p F (a ++ en) l acc tr = Some (st, tr') ->
+      spec_items p F (a ++ strip en) l acc tr = Some (st, tr') ->
       match st with
       | Cont acc' => range_go err_text self (ph_key p) (ph_val p) (guarded p s) n l (a ++ frame k acc ++ en) tr
                      = (RVal tt, a ++ frame k acc' ++ en, tr')
@@ -172,16 +210,16 @@ Section C02.
       change (bind_opt (ph_val p) vv (bind_opt (ph_key p) kv (a ++ frame k acc ++ en))) with (bind_kv p kv vv (a ++ frame k acc ++ en)).
       rewrite bind_kv_app.
       assert (Ha' : user_env (binds p kv vv ++ a)) by (apply Forall_app; split; [now apply binds_user|exact Ha]).
-      rewrite (app_assoc (binds p kv vv) a en) in H.
+      rewrite (app_assoc (binds p kv vv) a (strip en)) in H.
       rewrite (app_assoc (binds p kv vv) a (frame k acc ++ en)).
-      pose proof (guarded_ok k p s F Hs (binds p kv vv ++ a) acc tr) as G.
+      pose proof (guarded_ok k p s F Hp Hs (binds p kv vv ++ a) acc tr) as G.
       destruct (match ph_cond p with
-                | Some c => match pev ((binds p kv vv ++ a) ++ en) c with
-                            | Some (VBool true, tc) => F ((binds p kv vv ++ a) ++ en) acc (tr ++ tc)
-                            | Some (VBool false, tc) => Some (Cont acc, tr ++ tc)
+                | Some c => match op_f c ((binds p kv vv ++ a) ++ strip en) tr with
+                            | Some (VBool true, tr1) => F ((binds p kv vv ++ a) ++ strip en) acc tr1
+                            | Some (VBool false, tr1) => Some (Cont acc, tr1)
                             | _ => None
                             end
-                | None => F ((binds p kv vv ++ a) ++ en) acc tr
+                | None => F ((binds p kv vv ++ a) ++ strip en) acc tr
                 end) as [[st1 tr1]|] eqn:RUN; [|discriminate].
       specialize (G st1 tr1 Ha' eq_refl). destruct st1 as [acc1|vs1].
       + rewrite G.
@@ -195,17 +233,17 @@ Section C02.
   Lemma wrap_ok k p s F : wf_phrase p -> body_ok k s F -> body_ok k (wrap p s) (spec_wrap p F).
   Proof.
     intros Hp Hs a acc tr st tr' Ha H. unfold spec_wrap in H.
-    destruct (pev (a ++ en) (ph_x p)) as [[c tx]|] eqn:PX; [|discriminate].
+    destruct (op_f (ph_x p) (a ++ strip en) tr) as [[c tr1]|] eqn:PX; [|discriminate].
     destruct (range_of c) as [l| |] eqn:RG; try discriminate.
     unfold wrap. fold (guarded p s). rewrite ex_SRange.
-    rewrite (pev_sound a _ en (frame_nonuser k acc) _ _ _ PX). rewrite RG.
-    exact (items_ok k p s F Hp Hs a Ha l acc (tr ++ tx) st tr' _ eq_refl H).
+    destruct Hp as (Hk & Hv & Wx & Wc).
+    rewrite (op_at (ph_x p) a k acc c tr tr1 Wx Ha PX). rewrite RG.
+    exact (items_ok k p s F (conj Hk (conj Hv (conj Wx Wc))) Hs a Ha l acc tr1 st tr' _ eq_refl H).
   Qed.
 
   Lemma nest_ok k : forall ps s F, Forall wf_phrase ps -> body_ok k s F -> body_ok k (nest ps s) (spec_nest ps F).
   Proof. induction ps as [|p t IH]; intros s F Hw Hs; [exact Hs|]. inversion Hw; subst. cbn [nest spec_nest].
     apply IH; auto. now apply wrap_ok. Qed.
-
 
   (* ---------------------------------------------------------------- the whole comprehension *)
   Definition done_ne (F : body_fn) : Prop := forall e acc tr vs tr', F e acc tr = Some (Done vs, tr') -> vs <> [].
@@ -215,19 +253,19 @@ Section C02.
     - rewrite spec_items_nil in H. discriminate.
     - rewrite spec_items_cons in H. cbv zeta in H.
       destruct (match ph_cond p with
-                | Some c => match pev (bind_kv p kv vv e) c with
-                            | Some (VBool true, tc) => F (bind_kv p kv vv e) acc (tr ++ tc)
-                            | Some (VBool false, tc) => Some (Cont acc, tr ++ tc)
+                | Some c => match op_f c (bind_kv p kv vv e) tr with
+                            | Some (VBool true, tr1) => F (bind_kv p kv vv e) acc tr1
+                            | Some (VBool false, tr1) => Some (Cont acc, tr1)
                             | _ => None
                             end
                 | None => F (bind_kv p kv vv e) acc tr
                 end) as [[[acc1|vs1] tr1]|] eqn:RUN; try discriminate.
       + eapply IH; eauto.
       + injection H as <- <-. destruct (ph_cond p) as [c|]; [|eapply HF; eauto].
-        destruct (pev (bind_kv p kv vv e) c) as [[[| [|] | | | | | |] tc]|]; try discriminate. eapply HF; eauto. Qed.
+        destruct (op_f c (bind_kv p kv vv e) tr) as [[[| [|] | | | | | |] tc]|]; try discriminate. eapply HF; eauto. Qed.
 
   Lemma wrap_done_ne p F : done_ne F -> done_ne (spec_wrap p F).
-  Proof. intros HF e acc tr vs tr' H. unfold spec_wrap in H. destruct (pev e (ph_x p)) as [[c tx]|]; [|discriminate].
+  Proof. intros HF e acc tr vs tr' H. unfold spec_wrap in H. destruct (op_f (ph_x p) e tr) as [[c tx]|]; [|discriminate].
     destruct (range_of c); try discriminate. eapply items_done_ne; eauto. Qed.
 
   Lemma nest_done_ne : forall ps F, done_ne F -> done_ne (spec_nest ps F).
@@ -235,9 +273,9 @@ Section C02.
 
   Lemma inner_done_ne k : done_ne (spec_inner k).
   Proof. intros e acc tr vs tr' H. destruct k as [elt|ke ve|elt two|]; cbn [spec_inner] in H.
-    - destruct acc; try discriminate. destruct (pev e elt) as [[? ?]|]; discriminate.
-    - destruct acc; try discriminate. destruct (pev e ke) as [[? ?]|]; try discriminate. destruct (pev e ve) as [[? ?]|]; discriminate.
-    - destruct (pev e elt) as [[? ?]|]; try discriminate. injection H as <- _. discriminate.
+    - destruct acc; try discriminate. destruct (op_f elt e tr) as [[? ?]|]; discriminate.
+    - destruct acc; try discriminate. destruct (op_f ke e tr) as [[? ?]|]; try discriminate. destruct (op_f ve e t) as [[? ?]|]; discriminate.
+    - destruct (op_f elt e tr) as [[? ?]|]; try discriminate. injection H as <- _. discriminate.
     - injection H as <- _. discriminate. Qed.
 
   Lemma frame_init k zero : rev (results_of k zero) = frame k (spec_init k zero).
@@ -253,13 +291,13 @@ Section C02.
   Proof. destruct k as [| | ? [|] |]; reflexivity. Qed.
 
   Lemma comprehension_correct k zero ps tr vs tr' :
-    Forall wf_phrase ps ->
-    spec_comprehension k zero ps en tr = Some (vs, tr') ->
+    Forall wf_phrase ps -> wf_kind k ->
+    spec_comprehension k zero ps (strip en) tr = Some (vs, tr') ->
     ev (lower_comprehension k zero ps) en tr = (RVal vs, en, tr').
   Proof.
-    intros Hw HS. unfold lower_comprehension. unfold spec_comprehension in HS.
-    destruct (spec_nest ps (spec_inner k) en (spec_init k zero) tr) as [[st tr1]|] eqn:SN; [|discriminate].
-    pose proof (nest_ok k ps (innermost k) (spec_inner k) Hw (inner_ok k) [] (spec_init k zero) tr st tr1 (Forall_nil _) SN) as B.
+    intros Hw Wk HS. unfold lower_comprehension. unfold spec_comprehension in HS.
+    destruct (spec_nest ps (spec_inner k) (strip en) (spec_init k zero) tr) as [[st tr1]|] eqn:SN; [|discriminate].
+    pose proof (nest_ok k ps (innermost k) (spec_inner k) Hw (inner_ok k Wk) [] (spec_init k zero) tr st tr1 (Forall_nil _) SN) as B.
     cbn [app] in B.
     rewrite ev_EClosure. cbv zeta. rewrite frame_init. rewrite ex_SSeq, prologue_ok, ex_SSeq.
     destruct st as [acc|rv].
@@ -269,6 +307,13 @@ Section C02.
       pose proof (nest_done_ne ps _ (inner_done_ne k) _ _ _ _ _ SN) as NE.
       destruct rv as [|v0 rv]; [congruence|]. f_equal. f_equal. apply pop_to_app.
   Qed.
+  End Env.
+
+  (* a comprehension is itself a sound operand: comprehensions nest to any depth *)
+  Lemma comp_op_ok k zero ps : Forall wf_phrase ps -> wf_kind k -> op_ok (comp_op k zero ps).
+  Proof. intros Hw Wk en v tr tr' H. cbn [comp_op op_f op_e] in *.
+    destruct (spec_comprehension k zero ps (strip en) tr) as [[[|v0 [|v1 r]] tr1]|] eqn:S; try discriminate.
+    injection H as <- <-. now apply comprehension_correct. Qed.
 
   (* the last for-phrase is the outermost loop *)
   Lemma spec_nest_snoc : forall ps p F, spec_nest (ps ++ [p]) F = spec_wrap p (spec_nest ps F).
@@ -276,40 +321,10 @@ Section C02.
   Lemma nest_snoc : forall ps p s, nest (ps ++ [p]) s = wrap p (nest ps s).
   Proof. induction ps as [|q t IH]; intros p s; [reflexivity|]. cbn [app nest]. apply IH. Qed.
 
-  (* ---------------------------------------------------------------- readable corollary: one phrase *)
-  (* [e for x <- l if c]  =  map e (filter c l)   when e and c are effect-free *)
-  Lemma single_list_items p x c e (cf : val -> bool) (ef : val -> val) :
-    ph_key p = None -> ph_val p = Some x -> ph_cond p = Some c ->
-    (forall v, pev ((x, v) :: en) c = Some (VBool (cf v), [])) ->
-    (forall v, pev ((x, v) :: en) e = Some (ef v, [])) ->
-    forall l i acc tr,
-    spec_items p (spec_inner (CList e)) en (index_from i l) (VList acc) tr
-    = Some (Cont (VList (acc ++ map ef (filter cf l))), tr).
-  Proof. intros Hk Hv Hcd Hc He. induction l as [|v t IH]; intros i acc tr.
-    - cbn [index_from filter map]. rewrite spec_items_nil. now rewrite app_nil_r.
-    - cbn [index_from]. rewrite spec_items_cons. cbv zeta. unfold bind_kv, bind_opt. rewrite Hk, Hv, Hcd.
-      rewrite Hc. cbn [filter]. destruct (cf v).
-      + cbn [spec_inner]. rewrite He. rewrite !app_nil_r. rewrite IH. cbn [map]. now rewrite <- app_assoc.
-      + rewrite app_nil_r. apply IH.
-  Qed.
-
-  Lemma single_list_map_filter x c e l (cf : val -> bool) (ef : val -> val) zero tr :
-    (forall v, pev ((x, v) :: en) c = Some (VBool (cf v), [])) ->
-    (forall v, pev ((x, v) :: en) e = Some (ef v, [])) ->
-    spec_comprehension (CList e) zero [{| ph_key := None; ph_val := Some x; ph_x := EConst (VList l); ph_cond := Some c |}] en tr
-    = Some ([VList (map ef (filter cf l))], tr).
-  Proof. intros Hc He. unfold spec_comprehension. cbn [spec_nest]. unfold spec_wrap. cbn [ph_x pev range_of spec_init].
-    rewrite app_nil_r.
-    rewrite (single_list_items {| ph_key := None; ph_val := Some x; ph_x := EConst (VList l); ph_cond := Some c |}
-               x c e cf ef eq_refl eq_refl eq_refl Hc He l 0 [] tr). reflexivity. Qed.
-
   (* ---------------------------------------------------------------- a <- v1, v2, ... *)
-  Lemma pev_plain e0 v t : pev en e0 = Some (v, t) -> forall tr, ev e0 en tr = (RVal [v], en, tr ++ t).
-  Proof. intros H. exact (pev_sound [] [] en (Forall_nil _) e0 v t H). Qed.
-
-  Lemma send_fold : forall (ews : list (expr * val * trace)) base l tb tr,
+  Lemma send_fold en : forall (ews : list (expr * val * trace)) base l tb tr,
     (forall tr0, ev base en tr0 = (RVal [VList l], en, tr0 ++ tb)) ->
-    Forall (fun x => pev en (fst (fst x)) = Some (snd (fst x), snd x)) ews ->
+    Forall (fun x => pev (strip en) (fst (fst x)) = Some (snd (fst x), snd x)) ews ->
     ev (fold_left EAppend (map (fun x => fst (fst x)) ews) base) en tr
     = (RVal [VList (l ++ map (fun x => snd (fst x)) ews)], en, (tr ++ tb) ++ concat (map snd ews)).
   Proof. induction ews as [|[[e0 w] t] rest IH]; intros base l tb tr Hb HF.
@@ -317,59 +332,74 @@ Section C02.
     - inversion HF as [|? ? H1 H2]; subst. cbn [fst snd] in H1. cbn [map fold_left fst snd concat].
       rewrite (IH (EAppend base e0) (l ++ [w]) (tb ++ t)); auto.
       + rewrite <- !app_assoc. reflexivity.
-      + intros tr0. rewrite ev_EAppend. unfold ev1. rewrite Hb. cbn [one]. rewrite (pev_plain _ _ _ H1). cbn [one].
+      + intros tr0. rewrite ev_EAppend. unfold ev1. rewrite Hb. cbn [one]. rewrite (pev_sound _ _ _ _ H1). cbn [one].
         now rewrite <- app_assoc.
   Qed.
 
-  Lemma send_append_ok a l (ews : list (expr * val * trace)) en' tr :
+  Lemma send_append_ok en a l (ews : list (expr * val * trace)) en' tr :
     lookup en a = Some (VList l) ->
     update en a (VList (l ++ map (fun x => snd (fst x)) ews)) = Some en' ->
-    Forall (fun x => pev en (fst (fst x)) = Some (snd (fst x), snd x)) ews ->
+    Forall (fun x => pev (strip en) (fst (fst x)) = Some (snd (fst x), snd x)) ews ->
     ex (lower_send a (map (fun x => fst (fst x)) ews)) en tr = (RVal tt, en', tr ++ concat (map snd ews)).
   Proof. intros HL HU HF. unfold lower_send. rewrite ex_SAssign. cbn [rhs_eval].
-    rewrite (send_fold ews (EVar a) l [] tr); auto.
+    rewrite (send_fold en ews (EVar a) l [] tr); auto.
     - cbn [assign_all]. rewrite HU. now rewrite app_nil_r.
     - intros tr0. rewrite ev_EVar, HL. now rewrite app_nil_r.
   Qed.
-
-  (* a blank loop variable: `[e for _ <- l]` evaluates e once per element, `{for _ <- l}` tells whether l is non-empty *)
-  Lemma blank_list_items p e v0 : ph_key p = None -> ph_val p = None -> ph_cond p = None ->
-    pev en e = Some (v0, []) ->
-    forall l acc tr, spec_items p (spec_inner (CList e)) en l (VList acc) tr = Some (Cont (VList (acc ++ map (fun _ => v0) l)), tr).
-  Proof. intros Hk Hv Hc He. induction l as [|[kv vv] t IH]; intros acc tr.
-    - rewrite spec_items_nil. cbn [map]. now rewrite app_nil_r.
-    - rewrite spec_items_cons. cbv zeta. unfold bind_kv, bind_opt. rewrite Hk, Hv, Hc. cbn [spec_inner]. rewrite He.
-      rewrite app_nil_r. rewrite IH. cbn [map]. now rewrite <- app_assoc. Qed.
-
-  Lemma blank_list e v0 l zero tr : pev en e = Some (v0, []) ->
-    spec_comprehension (CList e) zero [{| ph_key := None; ph_val := None; ph_x := EConst (VList l); ph_cond := None |}] en tr
-    = Some ([VList (map (fun _ => v0) l)], tr).
-  Proof. intros He. unfold spec_comprehension. cbn [spec_nest]. unfold spec_wrap. cbn [ph_x pev range_of spec_init].
-    rewrite app_nil_r.
-    rewrite (blank_list_items {| ph_key := None; ph_val := None; ph_x := EConst (VList l); ph_cond := None |} e v0 eq_refl eq_refl eq_refl He).
-    cbn [app]. f_equal. f_equal. f_equal. f_equal. clear. generalize 0. induction l; intros; cbn [index_from map]; f_equal; auto. Qed.
-
-  Lemma blank_wf x c : wf_phrase {| ph_key := None; ph_val := None; ph_x := x; ph_cond := c |}.
-  Proof. split; exact I. Qed.
 End C02.
 
-(* named instances, stated outside the section *)
-Lemma comprehension_list_correct : forall err_text self en elt zero ps tr vs tr',
-  Forall wf_phrase ps ->
-  spec_comprehension (CList elt) zero ps en tr = Some (vs, tr') -> ev err_text self (lower_comprehension (CList elt) zero ps) en tr = (RVal vs, en, tr').
-Proof. intros et self en elt. exact (comprehension_correct et self en (CList elt)). Qed.
-Lemma comprehension_map_correct : forall err_text self en ke ve zero ps tr vs tr',
-  Forall wf_phrase ps ->
-  spec_comprehension (CMap ke ve) zero ps en tr = Some (vs, tr') -> ev err_text self (lower_comprehension (CMap ke ve) zero ps) en tr = (RVal vs, en, tr').
-Proof. intros et self en ke ve. exact (comprehension_correct et self en (CMap ke ve)). Qed.
-Lemma comprehension_select_correct : forall err_text self en elt two zero ps tr vs tr',
-  Forall wf_phrase ps ->
-  spec_comprehension (CSelect elt two) zero ps en tr = Some (vs, tr') -> ev err_text self (lower_comprehension (CSelect elt two) zero ps) en tr = (RVal vs, en, tr').
-Proof. intros et self en elt two. exact (comprehension_correct et self en (CSelect elt two)). Qed.
-Lemma comprehension_exists_correct : forall err_text self en zero ps tr vs tr',
-  Forall wf_phrase ps ->
-  spec_comprehension CExists zero ps en tr = Some (vs, tr') -> ev err_text self (lower_comprehension CExists zero ps) en tr = (RVal vs, en, tr').
-Proof. intros et self en. exact (comprehension_correct et self en CExists). Qed.
+(* ---------------------------------------------------------------- readable corollaries (no evaluator involved) *)
+(* [e for x <- l if c]  =  map e (filter c l)   when e and c are effect-free *)
+Lemma single_list_items p en x c e (cf : val -> bool) (ef : val -> val) :
+  ph_key p = None -> ph_val p = Some x -> ph_cond p = Some (pure_op c) ->
+  (forall v, pev ((x, v) :: en) c = Some (VBool (cf v), [])) ->
+  (forall v, pev ((x, v) :: en) e = Some (ef v, [])) ->
+  forall l i acc tr,
+  spec_items p (spec_inner (CList (pure_op e))) en (index_from i l) (VList acc) tr
+  = Some (Cont (VList (acc ++ map ef (filter cf l))), tr).
+Proof. intros Hk Hv Hcd Hc He. induction l as [|v t IH]; intros i acc tr.
+  - cbn [index_from filter map]. unfold spec_items. now rewrite app_nil_r.
+  - cbn [index_from]. unfold spec_items. fold (spec_items p (spec_inner (CList (pure_op e))) en).
+    cbv zeta. unfold bind_kv, bind_opt. rewrite Hk, Hv, Hcd. cbn [pure_op op_f].
+    rewrite Hc. rewrite app_nil_r. cbn [filter]. destruct (cf v).
+    + cbn [spec_inner pure_op op_f]. rewrite He. rewrite app_nil_r. rewrite IH. cbn [map]. now rewrite <- app_assoc.
+    + apply IH.
+Qed.
+
+Lemma single_list_map_filter en x c e l (cf : val -> bool) (ef : val -> val) zero tr :
+  (forall v, pev ((x, v) :: en) c = Some (VBool (cf v), [])) ->
+  (forall v, pev ((x, v) :: en) e = Some (ef v, [])) ->
+  spec_comprehension (CList (pure_op e)) zero
+    [{| ph_key := None; ph_val := Some x; ph_x := pure_op (EConst (VList l)); ph_cond := Some (pure_op c) |}] en tr
+  = Some ([VList (map ef (filter cf l))], tr).
+Proof. intros Hc He. unfold spec_comprehension. cbn [spec_nest]. unfold spec_wrap. cbn [ph_x pure_op op_f pev range_of spec_init].
+  rewrite app_nil_r.
+  rewrite (single_list_items {| ph_key := None; ph_val := Some x; ph_x := pure_op (EConst (VList l)); ph_cond := Some (pure_op c) |}
+             en x c e cf ef eq_refl eq_refl eq_refl Hc He l 0 [] tr). reflexivity. Qed.
+
+(* a blank loop variable: `[e for _ <- l]` evaluates e once per element *)
+Lemma blank_list_items p en e v0 : ph_key p = None -> ph_val p = None -> ph_cond p = None ->
+  pev en e = Some (v0, []) ->
+  forall l acc tr, spec_items p (spec_inner (CList (pure_op e))) en l (VList acc) tr = Some (Cont (VList (acc ++ map (fun _ => v0) l)), tr).
+Proof. intros Hk Hv Hc He. induction l as [|[kv vv] t IH]; intros acc tr.
+  - unfold spec_items. cbn [map]. now rewrite app_nil_r.
+  - unfold spec_items. fold (spec_items p (spec_inner (CList (pure_op e))) en).
+    cbv zeta. unfold bind_kv, bind_opt. rewrite Hk, Hv, Hc. cbn [spec_inner pure_op op_f]. rewrite He.
+    rewrite app_nil_r. rewrite IH. cbn [map]. now rewrite <- app_assoc. Qed.
+
+Lemma blank_list en e v0 l zero tr : pev en e = Some (v0, []) ->
+  spec_comprehension (CList (pure_op e)) zero
+    [{| ph_key := None; ph_val := None; ph_x := pure_op (EConst (VList l)); ph_cond := None |}] en tr
+  = Some ([VList (map (fun _ => v0) l)], tr).
+Proof. intros He. unfold spec_comprehension. cbn [spec_nest]. unfold spec_wrap. cbn [ph_x pure_op op_f pev range_of spec_init].
+  rewrite app_nil_r.
+  rewrite (blank_list_items {| ph_key := None; ph_val := None; ph_x := pure_op (EConst (VList l)); ph_cond := None |} en e v0 eq_refl eq_refl eq_refl He).
+  cbn [app]. f_equal. f_equal. f_equal. f_equal. clear. generalize 0. induction l; intros; cbn [index_from map]; f_equal; auto. Qed.
+
+Lemma blank_wf err_text self x c : op_ok err_text self x -> match c with Some o => op_ok err_text self o | None => True end ->
+  wf_phrase err_text self {| ph_key := None; ph_val := None; ph_x := x; ph_cond := c |}.
+Proof. intros Hx Hc. repeat split; auto. Qed.
+
 Lemma last_phrase_outermost : forall ps p s F,
   nest (ps ++ [p]) s = wrap p (nest ps s) /\ spec_nest (ps ++ [p]) F = spec_wrap p (spec_nest ps F).
 Proof. intros. split; [apply nest_snoc|apply spec_nest_snoc]. Qed.
